@@ -2397,6 +2397,8 @@ package engine
 //@   at-call append requires[the-clauses-of-a-later-load-follow-the-earlier-ones-in-source-order] a0 == local(existing, *userDefined).clauses && a1 == local(u, *userDefined).clauses
 //@   bind merged = append#1
 //@   at-store userDefined.clauses requires[the-extended-list-becomes-the-definition-of-the-multifile-predicate] called(merged) && v == merged && target == local(existing, *userDefined)
+//@   -- the commit loop: every predicate of the text either extends a multifile predicate (append) or becomes the definition (map store)
+//@   every-iteration 1 mapupdate or call:append
 //@   -- c20init additions
 //@   bind gp = Call#1
 //@   at-call (*VM).compile requires[the-text-is-read-with-the-caller-s-context-and-arguments] a0 == vm && a1 == ctx && a3 == s && a4 == args
